@@ -255,6 +255,8 @@ func c12Universe() []GM {
 	add(func(g *GM) { g.Minutes = 11 })
 	add(func(g *GM) { g.Locked = true })
 	add(func(g *GM) { g.Frames[0].Args.Items[1] = ArgM{TooLarge: true} })
+	// a literal zero next to the unprintable '_' (which is stored with the value 0)
+	add(func(g *GM) { g.Frames[0].Args.Items[1].Val = 0 })
 	// the same function and line in a file of the same name in another directory (two
 	// versions of a module, two directory-less cgo files), in a frame and in the creator
 	add(func(g *GM) { g.Frames[0].File = "/b/f.go" })
